@@ -4,6 +4,8 @@
 -/
 import PgmVerif.Proofs.Spec
 import PgmVerif.Model.CPD
+import PgmVerif.Props.C04
+import PgmVerif.Proofs.MassBound
 namespace PgmVerif
 open Factor
 
@@ -123,5 +125,16 @@ example : AllWF (fun _ => 2) [Factor.mk [0] [2] #[1/2, 1/2], Factor.mk [1, 0] [2
   intro f hf
   simp at hf
   rcases hf with rfl | rfl <;> exact ⟨by decide, by decide, by decide⟩
+
+
+/-- **a likelihood is defined up to scale**: multiplying one factor of the product (a virtual-evidence likelihood, an unnormalised
+    potential) by `c` multiplies the unnormalised answer of every sum-product query by `c` - which `C04_normalize_scale` then
+    forgets: the normalised posterior is the same -/
+theorem C01_likelihood_scale (K : Var → Nat) (g : Factor) (fs : List Factor) (c : Rat) (vs : List Var) (a : Asg) :
+    sumOut K vs (jointDen (Factor.scale c g :: fs)) a = c * sumOut K vs (jointDen (g :: fs)) a := by
+  have h : jointDen (Factor.scale c g :: fs) = fun b => c * jointDen (g :: fs) b := by
+    funext b
+    rw [jointDen_cons, jointDen_cons, scale_den, mul_assoc]
+  rw [h, sumOut_const_mul]
 
 end PgmVerif
